@@ -361,6 +361,16 @@ def function(draw, lang, fid, name, cls=None, kind="func", max_params=3, for_for
         f["const"] = draw(st.booleans())
     ncall = draw(st.integers(2, 4))
     f["calls"] = [draw(call_vector(f, for_fortran)) for _ in range(ncall)]
+    # the element value -1 (the error return of the CPython conversion functions) in one call of every list / vector
+    # input of a signed type - put there deterministically, not left to the draws
+    for p in params:
+        if p["row"] in ("V1in", "N3in") and (p["T"] in FLT_TYPES or (p["T"] in INT_TYPES and INT_TYPES[p["T"]][3])):
+            for c in reversed(f["calls"]):
+                v = c["inputs"].get(p["name"])
+                if v:
+                    if -1 not in v:
+                        v[len(v) // 2] = -1.0 if p["T"] in FLT_TYPES else -1
+                    break
     return f
 
 
